@@ -318,3 +318,240 @@ pub fn record(seed: u64, runs: u64, target: usize, path: &str) -> Value {
     w.flush().unwrap();
     json!({"summary":{"events":events,"bytes":bytes,"runs":runs}})
 }
+
+// ---------------------------------------------------------------------------------------------
+// C08: AutoStream
+// ---------------------------------------------------------------------------------------------
+pub fn choice_of(s: &str) -> anstream::ColorChoice {
+    match s {
+        "Auto" => anstream::ColorChoice::Auto,
+        "AlwaysAnsi" => anstream::ColorChoice::AlwaysAnsi,
+        "Always" => anstream::ColorChoice::Always,
+        "Never" => anstream::ColorChoice::Never,
+        _ => panic!("choice"),
+    }
+}
+pub fn choice_name(c: anstream::ColorChoice) -> &'static str {
+    match c {
+        anstream::ColorChoice::Auto => "Auto",
+        anstream::ColorChoice::AlwaysAnsi => "AlwaysAnsi",
+        anstream::ColorChoice::Always => "Always",
+        anstream::ColorChoice::Never => "Never",
+    }
+}
+
+pub fn pin_env() {
+    for v in ["NO_COLOR", "CLICOLOR", "CLICOLOR_FORCE", "CI"] {
+        std::env::remove_var(v);
+    }
+    std::env::set_var("TERM", "xterm-256color");
+    anstream::ColorChoice::Auto.write_global();
+}
+
+/// B: seeded random operation mixes x four choices x fault scripts
+pub fn auto_record(seed: u64, runs: u64, target: usize, path: &str) -> Value {
+    use crate::gen::{gen_stream, Flavor};
+    pin_env();
+    let mut w = crate::out_file(path);
+    let mut r = crate::rng::Rng::new(seed);
+    let (mut events, mut bytes) = (0u64, 0u64);
+    for k in 0..runs {
+        let choice = ["Never", "AlwaysAnsi", "Always", "Auto"][(k % 4) as usize];
+        let flavor = if r.chance(1, 2) { Flavor::Utf8 } else { Flavor::Full };
+        let input = gen_stream(&mut r, target, flavor);
+        bytes += input.len() as u64;
+        let profile = r.below(3);
+        let mut script = Vec::new();
+        for _ in 0..(input.len() + 8) {
+            let x = r.below(100);
+            script.push(if x < 70 {
+                Resp::All
+            } else if x < 92 {
+                Resp::Short(*r.pick(&[0usize, 1, 1, 2, 3, 5, 9]))
+            } else if x < 98 {
+                if profile >= 1 { Resp::ErrI } else { Resp::All }
+            } else if profile >= 2 {
+                if x == 98 { Resp::ErrW } else { Resp::ErrO }
+            } else {
+                Resp::All
+            });
+        }
+        let mut d = Driver::new(script, Target::AutoNever, Some(choice_of(choice)));
+        let reported = choice_name(d.auto.as_ref().unwrap().current_choice());
+        writeln!(w, "{}", json!({"op":"new","choice":choice,"auto":"Never","reported":reported})).unwrap();
+        d.first = false;
+        events += 1;
+        let maxc = *r.pick(&[1usize, 2, 3, 7, 16, 64]);
+        let mut pos = 0;
+        let mut stalls = 0;
+        let text_ok = std::str::from_utf8(&input).is_ok();
+        while pos < input.len() {
+            let opk = r.below(12);
+            if opk == 0 {
+                // flush is forwarded
+                let before = d.inner.borrow().flushes;
+                let _ = d.call("flush", &[], &[]);
+                let after = d.inner.borrow().flushes;
+                writeln!(w, "{}", json!({"op":"flush","ret":["ok", after - before]})).unwrap();
+                events += 1;
+                continue;
+            }
+            if opk == 1 {
+                let idx = r.below(LITS.len());
+                let ev = d.call("write_fmt_lit", LITS[idx].as_bytes(), &[]);
+                let bad = ev["ret"][0] != "ok";
+                writeln!(w, "{ev}").unwrap();
+                events += 1;
+                if bad {
+                    break;
+                }
+                continue;
+            }
+            let mut c = r.range(1, maxc).min(input.len() - pos);
+            let mut op = ["write", "write", "write_all", "vectored", "write_fmt"][r.below(5)];
+            if op == "write_fmt" {
+                if !text_ok {
+                    op = "write_all";
+                } else {
+                    let t = std::str::from_utf8(&input).unwrap();
+                    while !t.is_char_boundary(pos + c) {
+                        c += 1;
+                    }
+                    let _ = t;
+                }
+            }
+            let buf = &input[pos..pos + c];
+            if op == "write_fmt" && std::str::from_utf8(buf).is_err() {
+                op = "write_all";
+            }
+            let ev = d.call(op, buf, &[1 + r.below(3), 1 + r.below(4)]);
+            let ret = ev["ret"].clone();
+            writeln!(w, "{ev}").unwrap();
+            events += 1;
+            match ret[0].as_str().unwrap() {
+                "ok" => {
+                    let n = ret[1].as_u64().unwrap() as usize;
+                    if n == 0 {
+                        stalls += 1;
+                        if stalls > 4 {
+                            break;
+                        }
+                    } else {
+                        stalls = 0;
+                    }
+                    pos += n.min(c);
+                }
+                "eI" => {
+                    stalls += 1;
+                    if stalls > 5 {
+                        break;
+                    }
+                }
+                _ => break,
+            }
+        }
+        let delivered = d.into_delivered();
+        writeln!(w, "{}", json!({"op":"into_inner","buf":delivered})).unwrap();
+        events += 1;
+    }
+    w.flush().unwrap();
+    json!({"summary":{"events":events,"bytes":bytes,"runs":runs}})
+}
+
+/// A: TLC-generated operation sequences with the expected content of the inner writer for both modes,
+/// replayed for the four choices over Vec<u8>, Box<dyn Write> and File
+pub fn auto_replay(path: &str) -> Value {
+    pin_env();
+    let (mut cases, mut runs, mut bad) = (0u64, 0u64, 0u64);
+    let tmp = std::env::temp_dir().join(format!("vh-auto-{}", std::process::id()));
+    for c in crate::read_lines(path) {
+        cases += 1;
+        let ops: Vec<(String, Vec<u8>)> = c["ops"].as_array().unwrap().iter().map(|o| (o[0].as_str().unwrap().to_string(), crate::bytes_of(&o[1]))).collect();
+        let strip = crate::bytes_of(&c["strip"]);
+        let pass = crate::bytes_of(&c["pass"]);
+        for choice in ["Never", "AlwaysAnsi", "Always", "Auto"] {
+            let expect = if choice == "Never" || choice == "Auto" { &strip } else { &pass };
+            let expect_rep = if choice == "Never" || choice == "Auto" { "Never" } else { "AlwaysAnsi" };
+            for kind in 0..3 {
+                if kind == 2 && cases % 40 != 0 {
+                    continue;
+                }
+                runs += 1;
+                let res = catch_unwind(AssertUnwindSafe(|| -> (Vec<u8>, &'static str) {
+                    fn drive(w: &mut dyn Write, ops: &[(String, Vec<u8>)]) {
+                        for (op, b) in ops {
+                            match op.as_str() {
+                                "write" => {
+                                    let mut p = 0;
+                                    while p < b.len() {
+                                        p += w.write(&b[p..]).unwrap();
+                                    }
+                                }
+                                "write_all" => w.write_all(b).unwrap(),
+                                "vectored" => {
+                                    let mut p = 0;
+                                    while p < b.len() {
+                                        let m = (p + 1).min(b.len());
+                                        p += w.write_vectored(&[IoSlice::new(&[]), IoSlice::new(&b[p..m]), IoSlice::new(&b[m..])]).unwrap();
+                                    }
+                                }
+                                "write_fmt" => write!(w, "{}", std::str::from_utf8(b).unwrap()).unwrap(),
+                                "flush" => w.flush().unwrap(),
+                                _ => panic!("op"),
+                            }
+                        }
+                    }
+                    match kind {
+                        0 => {
+                            let mut s = anstream::AutoStream::new(Vec::new(), choice_of(choice));
+                            let rep = choice_name(s.current_choice());
+                            drive(&mut s, &ops);
+                            (s.into_inner(), rep)
+                        }
+                        1 => {
+                            let inner = Rc::new(RefCell::new(Inner::default()));
+                            let b: Box<dyn Write> = Box::new(Scripted(inner.clone()));
+                            let mut s = anstream::AutoStream::new(b, choice_of(choice));
+                            let rep = choice_name(s.current_choice());
+                            drive(&mut s, &ops);
+                            drop(s.into_inner());
+                            let d = inner.borrow().delivered.clone();
+                            (d, rep)
+                        }
+                        _ => {
+                            let f = std::fs::File::create(&tmp).unwrap();
+                            let mut s = anstream::AutoStream::new(f, choice_of(choice));
+                            let rep = choice_name(s.current_choice());
+                            drive(&mut s, &ops);
+                            drop(s.into_inner());
+                            (std::fs::read(&tmp).unwrap(), rep)
+                        }
+                    }
+                }));
+                let (ok, got) = match &res {
+                    Ok((d, rep)) => (d == expect && *rep == expect_rep, json!({"delivered":d,"reported":rep})),
+                    Err(_) => (false, json!("panic")),
+                };
+                if !ok {
+                    bad += 1;
+                    if bad <= 30 {
+                        println!("{}", json!({"mismatch":{"ops":c["ops"],"choice":choice,"inner_kind":(["Vec","BoxDyn","File"][kind]),"expected":{"delivered":expect,"reported":expect_rep},"observed":got}}));
+                    }
+                }
+            }
+        }
+        // to_adapted_string: Display through the same machinery, for a non-terminal
+        if ops.iter().all(|(_, b)| std::str::from_utf8(b).is_ok()) {
+            let all: Vec<u8> = ops.iter().flat_map(|(_, b)| b.clone()).collect();
+            let text = String::from_utf8(all).unwrap();
+            runs += 1;
+            let got = anstream::_macros::to_adapted_string(&text, &Vec::new());
+            if got.as_bytes() != &strip[..] {
+                bad += 1;
+                println!("{}", json!({"mismatch":{"ops":c["ops"],"choice":"to_adapted_string","expected":{"delivered":strip},"observed":{"delivered":got.as_bytes()}}}));
+            }
+        }
+    }
+    let _ = std::fs::remove_file(&tmp);
+    json!({"summary":{"cases":cases,"runs":runs,"mismatches":bad}})
+}
